@@ -7,4 +7,4 @@ THEOREMS = [tuple(x) for x in json.load(open(os.path.join(VERIF, "lib", "pins", 
 
 def main(tier, seed, replay=None):
     return sched_check(PROP, THEOREMS, tier, seed, [monitor_c05, monitor_c01], extra_modules=["Model.All", "Proofs.SchedSpec", "Proofs.SchedInv", "Proofs.SchedLive", "Proofs.SchedRunThms"],
-                       replay=replay)
+                       replay=replay, scen_gen=gen_sched_or_regen)
